@@ -157,6 +157,11 @@ static void COCSdoTransferFinalize(CO_CSDO *csdo)
         code = csdo->Tfer.Abort;
         call = csdo->Tfer.Call;
 
+        /* Stop the timeout supervision of the finished transfer */
+        if (csdo->Tfer.Tmr >= 0) {
+            (void)COTmrDelete(&(csdo->Node->Tmr), csdo->Tfer.Tmr);
+        }
+
         if (call != NULL) {
             call(csdo, idx, sub, code);
         }
